@@ -411,6 +411,18 @@ pub fn c06_shards(cx: &mut Ctx) {
             }
             // where did it run?
             let execs: Vec<usize> = cx.ix.exec_by_tag.get(&tag).cloned().unwrap_or_default();
+            if execs.is_empty() && entry.get("named_later").is_some() {
+                // only prepared under a name by this step (the pooler answers from its cache);
+                // its execution by a later Bind is found through the same tag, if it got that far
+                cx.probe("c06_named_statement_never_executed");
+                if !matches!(s.outcome, StepOutcome::Ready(_)) {
+                    break;
+                }
+                continue;
+            }
+            if entry.get("named_later").is_some() {
+                cx.probe("c06_named_statement_executed_by_later_bind");
+            }
             if execs.is_empty() {
                 cx.probe("c06_statement_not_executed");
                 let dead = cx.spec.params.get("dead_shard").and_then(|v| v.as_i64()).unwrap_or(-1);
